@@ -494,7 +494,7 @@ def rule_gallery(ctx, R):
     if b is not None:
         eb = ExprBuilder(b)
         import votinglib as V
-        ret = b.find_calls('std::vec::Vec::retain')
+        ret = b.find_calls('std::vec::Vec::retain', 'std::vec::Vec::retain_mut')
         srt = V.sort_calls(b)
         trn = b.find_calls('std::vec::Vec::truncate')
         n += 1
